@@ -6,6 +6,7 @@ import (
 	"io"
 	"io/fs"
 	"os"
+	"sync"
 )
 
 // The premise the concurrent harnesses rest on: a single-packet operation of
@@ -121,4 +122,51 @@ func vh_C15_client_one_request() {
 	}
 	vAssert(err == nil && m == n, "the operation completes")
 	vAssert(vC15Reqs == 1, "an operation that fits in one packet is exactly one request")
+}
+
+// the implicit offset is part of the state the operations are atomic on: two
+// goroutines that Read one byte each from the same File get the two bytes of
+// the file, one each, in either order, and the offset ends behind them - on
+// every interleaving of their steps (added after seeded change C15-d)
+var vC15Content []byte
+
+func vC15ReadPeer(typ byte, body []byte) (fxp, []byte) {
+	id := body[:4]
+	if typ == sshFxpRead {
+		_, rest := vBodyStr(body[4:])
+		off := int(vBE64(rest))
+		if off < len(vC15Content) {
+			return sshFxpData, append(append([]byte{}, id...), 0, 0, 0, 1, vC15Content[off])
+		}
+		return vStatusReply(id, sshFxEOF)
+	}
+	return vStatusReply(id, sshFxOk)
+}
+
+func vh_C15_concurrent_file_reads() {
+	a, b := vNondetU8(), vNondetU8()
+	vAssume(a != b)
+	vC15Content = []byte{a, b}
+	vPeer = vC15ReadPeer
+	c := vPeerClient()
+	defer vPeerDone(c)
+	c.maxPacket = 1
+	f := &File{c: c, path: "/f", handle: "h"}
+	var got [2]byte
+	var ns [2]int
+	var wg sync.WaitGroup
+	for g := 0; g < 2; g++ {
+		g := g
+		wg.Add(1)
+		go func() {
+			defer wg.Done()
+			buf := make([]byte, 1)
+			n, _ := f.Read(buf)
+			ns[g], got[g] = n, buf[0]
+		}()
+	}
+	wg.Wait()
+	vAssert(ns[0] == 1 && ns[1] == 1, "both reads deliver a byte")
+	vAssert((got[0] == a && got[1] == b) || (got[0] == b && got[1] == a), "the two reads return the two bytes of the file, one each")
+	vAssert(f.offset == 2, "the offset ends behind both reads")
 }
